@@ -29,7 +29,11 @@ type Rec struct {
 	maxSamp  int
 }
 
+// LastProp is the property id of the most recently created recorder (tests run one after another in a process).
+var LastProp, LastTest string
+
 func New(prop, test string) *Rec {
+	LastProp, LastTest = prop, test
 	return &Rec{Prop: prop, Test: test, NT: map[string]bool{}, Labels: map[string]int{},
 		Known: map[string]string{}, Excluded: map[string]int{}, Extra: map[string]any{}, maxSamp: 4}
 }
